@@ -453,6 +453,35 @@ func (e *Engine) solveAll(workdir string, timeout time.Duration, par int) {
 		}(o)
 	}
 	wg.Wait()
+	// second chance for undecided obligations: a timeout under machine load must not become an
+	// alarm.  Few at a time, four times the budget.  (On a tree where everything discharges this costs nothing.)
+	var undecided []*Obligation
+	for _, o := range e.obls {
+		if !o.Cover && !o.Quick && (o.Status == "timeout" || o.Status == "unknown") {
+			undecided = append(undecided, o)
+		}
+	}
+	if n := len(undecided); n > 0 && n <= 16 {
+		sem2 := make(chan struct{}, 4)
+		var wg2 sync.WaitGroup
+		for _, o := range undecided {
+			wg2.Add(1)
+			sem2 <- struct{}{}
+			go func(o *Obligation) {
+				defer wg2.Done()
+				defer func() { <-sem2 }()
+				r := race(o.File, 4*timeout)
+				if r.status == "unsat" || r.status == "sat" {
+					o.Status, o.Solver, o.Raw = r.status, r.solver, r.out
+					if r.status == "sat" {
+						o.Model = parseValues(r.out)
+					}
+				}
+				o.Secs += r.secs
+			}(o)
+		}
+		wg2.Wait()
+	}
 }
 
 // recheck re-runs one obligation with extra assumptions (known-finding class exclusion, model refinement).
